@@ -608,6 +608,7 @@ func checkC15(c *Ctx) {
 	dispatchOwnContext(c, "R-own-context")
 	c15SessionInContext(c)
 	c15IDPresence(c)
+	dispatchUngated(c, "R-dispatch-ungated")
 	c15ResultPrivate(c, "R-result-private")
 
 	// ---- R-error-internal: "a middleware error becomes a JSON-RPC internal error for that request": wherever a
